@@ -2,7 +2,7 @@
    repetition count and an inversion flag; the statement is unrolled to that many copies of the gate or of its inverse
    (self-inverse gates stay, s <-> sdg, t <-> tdg, rotations negate their angle).  Added to the whole-program judgement. *)
 From Coq Require Import ZArith List Bool String Lia.
-From Verif Require Import Aexp BGate PyVal CastPrim Ast State GatesGen GateLib Unroll ResolveProofs Depth DepthModel ExprProofs FixProofs ParamProofs.
+From Verif Require Import Aexp BGate PyVal CastPrim Ast State GatesGen GateLib Unroll ResolveProofs Depth DepthModel ExprProofs FixProofs ParamProofs LoopProofs BroadcastProofs.
 Import ListNotations.
 Open Scope Z_scope.
 
@@ -73,58 +73,90 @@ Proof.
   transitivity (gates (nodepth s')); [destruct s'; reflexivity|]. rewrite E. destruct s; reflexivity.
 Qed.
 
-(* what one application of a library gate (or of its inverse) emits: computed from the operation tables exactly as the
-   visitor model does -- the table entry applied to the parameters and the qubits, its angle expressions evaluated.  Any
-   library gate, not only the basis gates: cnot gives cx, u3 its rz / rx sequence, ... *)
-Definition lower_app (name : string) (vs : list pyval) (bs : list bitref) (inv : bool) : option (list stmt) :=
+(* what applying a library gate (or its inverse) to a list of operands emits: computed from the operation tables exactly as
+   the visitor model does.  The operands (registers, literal slices, literal bits) resolve to bits; the bits are cut into
+   consecutive groups of the gate's arity (broadcast); the table entry is applied to the parameters and each group, its angle
+   expressions evaluated.  Any library gate: cnot gives cx, u3 its rz / rx sequence, ... *)
+Definition lower_entry (name : string) (inv : bool)
+  : option ((list (garg bitref) -> option (list (bgate bitref))) * nat * bool) :=
   let entry := if negb inv
                then match lookup_op bitref name with Some (e, n) => Some (e, n, false) | None => None end
                else match lookup_inv bitref name with InvFound e n i => Some (e, n, i) | _ => None end in
   match entry with
-  | Some (Some (_, _, f), k, neg) =>
-      if Nat.eqb (List.length bs) k && negb (Nat.eqb k 0) then
+  | Some (Some (_, _, f), k, neg) => Some (f, k, neg)
+  | _ => None
+  end.
+
+Definition lower_target (f : list (garg bitref) -> option (list (bgate bitref))) (vs' : list pyval) (tg : list bitref) : option (list stmt) :=
+  match f (map GA (map AVar (seq 0 (List.length vs'))) ++ map GQ tg) with
+  | Some bgs => match mapR (stmt_of_bgate vs') bgs with Ok stmts => Some stmts | Err _ => None end
+  | None => None
+  end.
+
+(* the groups and what each emits *)
+Definition lower_app (env : renv) (name : string) (vs : list pyval) (bits : list bitref) (inv : bool)
+  : option (list (list bitref) * list (list stmt)) :=
+  match lower_entry name inv with
+  | Some (f, k, neg) =>
+      if negb (Nat.eqb k 0) && Nat.eqb (Nat.modulo (List.length bits) k) 0 then
         match (if neg then negate_all vs else Some vs) with
         | Some vs' =>
-            match f (map GA (map AVar (seq 0 (List.length vs'))) ++ map GQ bs) with
-            | Some bgs => match mapR (stmt_of_bgate vs') bgs with Ok stmts => Some stmts | Err _ => None end
-            | None => None
-            end
+            let tgs := chunks (List.length bits) k bits in
+            if forallb (fun tg => forallb (in_reg (e_q env)) tg && distinctb [] tg) tgs then
+              match mapM (lower_target f vs') tgs with
+              | Some sts => Some (tgs, sts)
+              | None => None
+              end
+            else None
         | None => None
         end
       else None
-  | _ => None
+  | None => None
   end.
+
+Lemma gate_targets_ok env s tgs : Regs env s ->
+  forallb (fun tg => forallb (in_reg (e_q env)) tg && distinctb [] tg) tgs = true ->
+  OKS (update_depth_for_gate tgs) s (map (map Qr) tgs).
+Proof.
+  unfold update_depth_for_gate. revert s. induction tgs as [|tg tgs IH]; intros s R H; cbn [iterM map].
+  - exists tt, s. split; [reflexivity|]. split; [apply DE_refl|apply Dstep_same; reflexivity].
+  - cbn [forallb] in H. apply andb_true_iff in H as [H1 H]. apply andb_true_iff in H1 as [Hin Hd].
+    destruct (depth_two_pass_ok gate_upd tg s) as ([] & s1 & E1 & D1); [intros b Hb; eapply HasQ_all; eauto|].
+    destruct (IH s1 (Regs_DE _ _ _ R D1) H) as ([] & s2 & E2 & D2 & S2).
+    exists tt, s2. unfold depth_gate_subset at 1. rewrite (bind_eq _ _ s tt s1 E1). split; [exact E2|]. split; [eapply DE_trans; eauto|].
+    change (map Qr tg :: map (map Qr) tgs) with ([map Qr tg] ++ map (map Qr) tgs).
+    eapply Dstep_trans; [|exact S2]. apply Dstep_one. intros N.
+    apply (gate_subset_is_dstep tg s s1); [exact (proj1 (distinctb_NoDup tg [] Hd))|exact N|exact E1].
+Qed.
 
 Section Mods.
 Variable check_only : bool.
 Variable visit_rec : stmt -> M (list stmt).
 Variable call_rec : string -> list expr -> M (pyval * list stmt).
 
-Lemma basic_apply env s name args vs bs inv stmts :
-  Regs env s -> lower_app name vs bs inv = Some stmts -> cparams args = Some vs ->
-  forallb (in_reg (e_q env)) bs = true -> distinctb [] bs = true ->
-  exists s1, visit_basic_gate check_only call_rec name args (map qarg_of bs) inv s
-             = Ok ((if check_only then [] else stmts), s1) /\ DE s s1 /\ Dstep s s1 [map Qr bs].
+Lemma basic_apply env s name args vs qs bss inv tgs sts :
+  Regs env s -> mapM (opnd_bits (e_q env)) qs = Some bss -> distinctb [] (List.concat bss) = true ->
+  lower_app env name vs (List.concat bss) inv = Some (tgs, sts) -> cparams args = Some vs ->
+  exists s1, visit_basic_gate check_only call_rec name args qs inv s
+             = Ok ((if check_only then [] else List.concat sts), s1) /\ DE s s1 /\ Dstep s s1 (map (map Qr) tgs).
 Proof.
-  intros R Hl Hargs Hin Hd. unfold lower_app in Hl. unfold visit_basic_gate.
-  set (entry := if negb inv
-                then match lookup_op bitref name with Some (e, n) => Some (e, n, false) | None => None end
-                else match lookup_inv bitref name with InvFound e n i => Some (e, n, i) | _ => None end) in Hl.
-  destruct entry as [[[e k] neg]|] eqn:Ee; [|discriminate Hl].
-  destruct e as [[[d np'] f]|]; [|discriminate Hl].
-  destruct (Nat.eqb (List.length bs) k && negb (Nat.eqb k 0)) eqn:C; [|discriminate Hl].
-  apply andb_true_iff in C as [Hb Hk]. apply Nat.eqb_eq in Hb. apply negb_true_iff in Hk. apply Nat.eqb_neq in Hk.
+  intros R Hq Hd Hl Hargs. set (bits := List.concat bss) in *. unfold lower_app in Hl. unfold visit_basic_gate.
+  destruct (lower_entry name inv) as [[[f k] neg]|] eqn:Ee; [|discriminate Hl].
+  destruct (negb (Nat.eqb k 0) && Nat.eqb (Nat.modulo (List.length bits) k) 0) eqn:C; [|discriminate Hl].
+  apply andb_true_iff in C as [Hk Hmod]. apply negb_true_iff in Hk. apply Nat.eqb_neq in Hk.
   destruct (if neg then negate_all vs else Some vs) as [vs'|] eqn:Eneg; [|discriminate Hl].
-  destruct (f (map GA (map AVar (seq 0 (List.length vs'))) ++ map GQ bs)) as [bgs|] eqn:Ef; [|discriminate Hl].
-  destruct (mapR (stmt_of_bgate vs') bgs) as [st|] eqn:Em; [|discriminate Hl]. injection Hl as <-.
-  assert (Hent : (if negb inv
+  match type of Hl with (if ?c then _ else _) = _ => destruct c eqn:Hok; [|discriminate Hl] end.
+  destruct (mapM (lower_target f vs') (chunks (List.length bits) k bits)) as [sts'|] eqn:Em; [|discriminate Hl]. injection Hl as <- <-.
+  unfold lower_entry in Ee.
+  assert (Hent : exists d np', (if negb inv
                   then match lookup_op bitref name with Some (e, n) => ret (e, n, false) | None => verr end
                   else match lookup_inv bitref name with
                        | InvFound e n inv0 => ret (e, n, inv0) | InvKeyError => ierr KKey | InvUnsupported => verr end) s
                  = Ok ((Some (d, np', f), k, neg), s)).
-  { unfold entry in Ee. destruct (negb inv).
-    - destruct (lookup_op bitref name) as [[e0 n0]|]; [|discriminate Ee]. injection Ee as -> -> <-. reflexivity.
-    - destruct (lookup_inv bitref name) as [e0 n0 i0| |]; try discriminate Ee. injection Ee as -> -> ->. reflexivity. }
+  { destruct (negb inv).
+    - destruct (lookup_op bitref name) as [[[[[d np'] f0]|] n0]|]; try discriminate Ee. injection Ee as <- <- <-. exists d, np'. reflexivity.
+    - destruct (lookup_inv bitref name) as [[[[d np'] f0]|] n0 i0| |]; try discriminate Ee. injection Ee as <- <- <-. exists d, np'. reflexivity. }
+  destruct Hent as (d & np' & Hent).
   rewrite (bind_eq _ _ s (Some (d, np', f), k, neg) s Hent).
   assert (Hp : (match args with
                 | [] => ret []
@@ -136,73 +168,83 @@ Proof.
     - rewrite (bind_eq _ _ s vs s (cparams_eval call_rec (a0 :: args0) vs s Hargs)).
       destruct neg; [now apply negate_all_mapMM|injection Eneg as <-; reflexivity]. }
   rewrite (bind_eq _ _ s vs' s Hp).
-  assert (Ht : unroll_targets call_rec (map qarg_of bs) k s = Ok ([bs], s)).
+  assert (Ht : unroll_targets call_rec qs k s = Ok (chunks (List.length bits) k bits, s)).
   { unfold unroll_targets. rewrite (bind_eq _ _ s s s eq_refl).
-    pose proof (get_op_bits_literals call_rec env s true bs R Hin Hd) as G. cbn iota in G.
-    rewrite (bind_eq _ _ s bs s G). destruct k as [|k']; [lia|]. rewrite Hb, Nat.mod_same by lia.
-    cbn [Nat.eqb guard]. rewrite (bind_eq _ _ s tt s eq_refl). rewrite chunks_single by (auto; lia). reflexivity. }
-  rewrite (bind_eq _ _ s [bs] s Ht).
-  cbn [concatMM]. rewrite Ef, Em.
-  rewrite (bind_eq _ _ s (st ++ []) s).
-  2:{ rewrite (bind_eq _ _ s st s eq_refl). rewrite (bind_eq _ _ s [] s eq_refl). reflexivity. }
-  destruct (depth_two_pass_ok gate_upd bs s) as ([] & s1 & E1 & D1).
-  { intros b Hbn. eapply HasQ_of; eauto. eapply forallb_forall in Hin; eauto. }
-  unfold update_depth_for_gate. cbn [iterM]. unfold depth_gate_subset.
-  rewrite (bind_eq _ _ s tt s1); [|rewrite (bind_eq _ _ s tt s1 E1); reflexivity].
-  exists s1. split; [unfold emit, ret; rewrite app_nil_r; reflexivity|]. split; [exact D1|]. apply Dstep_one. intros N.
-  apply (gate_subset_is_dstep bs s s1); [exact (proj1 (distinctb_NoDup bs [] Hd))|exact N|exact E1].
+    pose proof (get_op_bits_opnds call_rec env s true qs bss R Hq Hd) as G. cbn iota in G. fold bits in G.
+    rewrite (bind_eq _ _ s bits s G). destruct k as [|k']; [lia|]. rewrite Hmod.
+    cbn [guard]. rewrite (bind_eq _ _ s tt s eq_refl). reflexivity. }
+  rewrite (bind_eq _ _ s _ s Ht).
+  assert (Hc : forall tgs0 sts0, mapM (lower_target f vs') tgs0 = Some sts0 ->
+               concatMM (fun tg =>
+                   match f (map GA (map AVar (seq 0 (List.length vs'))) ++ map GQ tg) with
+                   | None => verr
+                   | Some bgs => lift (match mapR (stmt_of_bgate vs') bgs with Err (EInternal KType) => Err EValidation | r => r end)
+                   end) tgs0 s = Ok (List.concat sts0, s)).
+  { induction tgs0 as [|tg tgs0 IH]; intros sts0 H0; cbn [mapM] in H0.
+    - injection H0 as <-. reflexivity.
+    - destruct (lower_target f vs' tg) as [st|] eqn:Et; [|discriminate H0].
+      destruct (mapM (lower_target f vs') tgs0) as [sts1|] eqn:Em1; [|discriminate H0]. injection H0 as <-.
+      cbn [concatMM List.concat]. unfold lower_target in Et.
+      destruct (f (map GA (map AVar (seq 0 (List.length vs'))) ++ map GQ tg)) as [bgs|]; [|discriminate Et].
+      destruct (mapR (stmt_of_bgate vs') bgs) as [st'|]; [|discriminate Et]. injection Et as <-.
+      rewrite (bind_eq _ _ s st' s eq_refl). rewrite (bind_eq _ _ s (List.concat sts1) s (IH sts1 eq_refl)). reflexivity. }
+  rewrite (bind_eq _ _ s (List.concat sts') s (Hc _ _ Em)).
+  destruct (gate_targets_ok env s _ R Hok) as ([] & s1 & E1 & D1 & S1).
+  rewrite (bind_eq _ _ s tt s1 E1).
+  exists s1. split; [reflexivity|]. split; assumption.
 Qed.
 
-Lemma one_application env s name args vs bs inv stmts :
-  Regs env s -> smemk name (gates s) = false -> lower_app name vs bs inv = Some stmts -> cparams args = Some vs ->
-  forallb (in_reg (e_q env)) bs = true -> distinctb [] bs = true ->
+Lemma one_application env s name args vs qs bss inv tgs sts :
+  Regs env s -> smemk name (gates s) = false -> mapM (opnd_bits (e_q env)) qs = Some bss -> distinctb [] (List.concat bss) = true ->
+  lower_app env name vs (List.concat bss) inv = Some (tgs, sts) -> cparams args = Some vs ->
   exists s1, (s0 <- getst;;
-              if smem name [] then visit_external_gate check_only visit_rec call_rec name args (map qarg_of bs) inv
-              else if smemk name (gates s0) then visit_custom_gate check_only visit_rec call_rec name args (map qarg_of bs) inv
-              else visit_basic_gate check_only call_rec name args (map qarg_of bs) inv) s
-             = Ok ((if check_only then [] else stmts), s1) /\ DE s s1 /\ Dstep s s1 [map Qr bs].
+              if smem name [] then visit_external_gate check_only visit_rec call_rec name args qs inv
+              else if smemk name (gates s0) then visit_custom_gate check_only visit_rec call_rec name args qs inv
+              else visit_basic_gate check_only call_rec name args qs inv) s
+             = Ok ((if check_only then [] else List.concat sts), s1) /\ DE s s1 /\ Dstep s s1 (map (map Qr) tgs).
 Proof.
-  intros R Hng Ha Hargs Hin Hd. rewrite (bind_eq _ _ s s s eq_refl). cbn [smem existsb]. rewrite Hng.
+  intros R Hng Hq Hd Ha Hargs. rewrite (bind_eq _ _ s s s eq_refl). cbn [smem existsb]. rewrite Hng.
   eapply basic_apply; eauto.
 Qed.
 
 Fixpoint copies {A} (n : nat) (l : list A) : list A := match n with O => [] | S n' => l ++ copies n' l end.
 
-Lemma repeated_applications env name args vs bs inv stmts n : forall s,
-  Regs env s -> smemk name (gates s) = false -> lower_app name vs bs inv = Some stmts -> cparams args = Some vs ->
-  forallb (in_reg (e_q env)) bs = true -> distinctb [] bs = true ->
+Lemma repeated_applications env name args vs qs bss inv tgs sts n : forall s,
+  Regs env s -> smemk name (gates s) = false -> mapM (opnd_bits (e_q env)) qs = Some bss -> distinctb [] (List.concat bss) = true ->
+  lower_app env name vs (List.concat bss) inv = Some (tgs, sts) -> cparams args = Some vs ->
   exists s1, repeatM n (s0 <- getst;;
-              if smem name [] then visit_external_gate check_only visit_rec call_rec name args (map qarg_of bs) inv
-              else if smemk name (gates s0) then visit_custom_gate check_only visit_rec call_rec name args (map qarg_of bs) inv
-              else visit_basic_gate check_only call_rec name args (map qarg_of bs) inv) s
-             = Ok ((if check_only then [] else copies n stmts), s1) /\ DE s s1 /\ Dstep s s1 (repeat (map Qr bs) n).
+              if smem name [] then visit_external_gate check_only visit_rec call_rec name args qs inv
+              else if smemk name (gates s0) then visit_custom_gate check_only visit_rec call_rec name args qs inv
+              else visit_basic_gate check_only call_rec name args qs inv) s
+             = Ok ((if check_only then [] else copies n (List.concat sts)), s1) /\ DE s s1 /\ Dstep s s1 (copies n (map (map Qr) tgs)).
 Proof.
-  induction n as [|n IH]; intros s R Hng Ha Hargs Hin Hd; cbn [repeatM repeat copies].
+  induction n as [|n IH]; intros s R Hng Hq Hd Ha Hargs; cbn [repeatM copies].
   - exists s. split; [destruct check_only; reflexivity|]. split; [apply DE_refl|apply Dstep_same; reflexivity].
-  - destruct (one_application env s name args vs bs inv stmts R Hng Ha Hargs Hin Hd) as (s1 & E1 & D1 & S1).
+  - destruct (one_application env s name args vs qs bss inv tgs sts R Hng Hq Hd Ha Hargs) as (s1 & E1 & D1 & S1).
     assert (Hng1 : smemk name (gates s1) = false) by (now rewrite (DE_gates _ _ D1)).
-    destruct (IH s1 (Regs_DE _ _ _ R D1) Hng1 Ha Hargs Hin Hd) as (s2 & E2 & D2 & S2).
-    rewrite (bind_eq _ _ s (if check_only then [] else stmts) s1 E1).
-    rewrite (bind_eq _ _ s1 (if check_only then [] else copies n stmts) s2 E2).
+    destruct (IH s1 (Regs_DE _ _ _ R D1) Hng1 Hq Hd Ha Hargs) as (s2 & E2 & D2 & S2).
+    rewrite (bind_eq _ _ s (if check_only then [] else List.concat sts) s1 E1).
+    rewrite (bind_eq _ _ s1 (if check_only then [] else copies n (List.concat sts)) s2 E2).
     exists s2. split; [unfold ret; destruct check_only; reflexivity|]. split; [eapply DE_trans; eauto|].
-    change (map Qr bs :: repeat (map Qr bs) n) with ([map Qr bs] ++ repeat (map Qr bs) n). eapply Dstep_trans; eauto.
+    eapply Dstep_trans; eauto.
 Qed.
 
 (* the modified gate statement *)
-Lemma modified_gate_fix env s mods name args vs bs p inv stmts :
+Lemma modified_gate_fix env s mods name args vs qs bss p inv tgs sts :
   Regs env s -> smemk name (gates s) = false -> cmods mods 1 false = Some (p, inv) -> p < 10000 ->
-  lower_app name vs bs inv = Some stmts -> cparams args = Some vs ->
-  forallb (in_reg (e_q env)) bs = true -> distinctb [] bs = true ->
-  exists s1, visit_generic_gate check_only [] visit_rec call_rec mods name args (map qarg_of bs) s
-             = Ok ((if check_only then [] else copies (Z.to_nat p) stmts), s1) /\ DE s s1 /\ Dstep s s1 (repeat (map Qr bs) (Z.to_nat p)).
+  mapM (opnd_bits (e_q env)) qs = Some bss -> distinctb [] (List.concat bss) = true ->
+  lower_app env name vs (List.concat bss) inv = Some (tgs, sts) -> cparams args = Some vs ->
+  exists s1, visit_generic_gate check_only [] visit_rec call_rec mods name args qs s
+             = Ok ((if check_only then [] else copies (Z.to_nat p) (List.concat sts)), s1) /\ DE s s1 /\
+             Dstep s s1 (copies (Z.to_nat p) (map (map Qr) tgs)).
 Proof.
-  intros R Hng Hc Hp Ha Hargs Hin Hd. unfold visit_generic_gate.
+  intros R Hng Hc Hp Hq Hd Ha Hargs. unfold visit_generic_gate.
   rewrite (bind_eq _ _ s (VInt p, inv) s (collapse_mods_literal call_rec mods 1 false (p, inv) s Hc)).
   rewrite (bind_eq _ _ s s s eq_refl). rewrite (in_some_function_false env s R), andb_false_r.
-  rewrite (bind_eq _ _ s (map qarg_of bs) s eq_refl). rewrite (bind_eq _ _ s p s eq_refl).
+  rewrite (bind_eq _ _ s qs s eq_refl). rewrite (bind_eq _ _ s p s eq_refl).
   assert (p <? 10000 = true) as -> by (apply Z.ltb_lt; lia). cbn [guard]. rewrite (bind_eq _ _ s tt s eq_refl).
-  destruct (repeated_applications env name args vs bs inv stmts (Z.to_nat p) s R Hng Ha Hargs Hin Hd) as (s1 & E1 & D1 & S1).
-  rewrite (bind_eq _ _ s (if check_only then [] else copies (Z.to_nat p) stmts) s1 E1).
+  destruct (repeated_applications env name args vs qs bss inv tgs sts (Z.to_nat p) s R Hng Hq Hd Ha Hargs) as (s1 & E1 & D1 & S1).
+  rewrite (bind_eq _ _ s (if check_only then [] else copies (Z.to_nat p) (List.concat sts)) s1 E1).
   exists s1. split; [unfold emit, ret; destruct check_only; reflexivity|]. split; assumption.
 Qed.
 End Mods.
@@ -211,12 +253,12 @@ End Mods.
 Definition mod_ok (env : renv) (G : list (string * gatedef)) (stm : stmt) : option (list stmt * list (list rsrc)) :=
   match stm with
   | SGate mods name args qs =>
-      match cmods mods 1 false, mapM lit_bit qs, cparams args with
-      | Some (p, inv), Some bs, Some vs =>
-          if negb (smemk name G) && (p <? 10000) && forallb (in_reg (e_q env)) bs && distinctb [] bs then
-            match lower_app name vs bs inv with
-            | Some stmts => if forallb (op_ok env) stmts
-                            then Some (copies (Z.to_nat p) stmts, repeat (map Qr bs) (Z.to_nat p)) else None
+      match cmods mods 1 false, mapM (opnd_bits (e_q env)) qs, cparams args with
+      | Some (p, inv), Some bss, Some vs =>
+          if negb (smemk name G) && (p <? 10000) && distinctb [] (List.concat bss) then
+            match lower_app env name vs (List.concat bss) inv with
+            | Some (tgs, sts) => if forallb (op_ok env) (List.concat sts)
+                                 then Some (copies (Z.to_nat p) (List.concat sts), copies (Z.to_nat p) (map (map Qr) tgs)) else None
             | None => None
             end
           else None
@@ -230,12 +272,12 @@ Lemma mod_fix check_only f env G s stm out evs : Regs env s -> gates s = G -> mo
 Proof.
   intros R HG H. destruct stm; try discriminate H. cbn [mod_ok] in H.
   destruct (cmods mods 1 false) as [[p inv]|] eqn:Ec; [|discriminate H].
-  destruct (mapM lit_bit qubits) as [bs|] eqn:Eb; [|discriminate H]. destruct (cparams args) as [vs|] eqn:Ev; [|discriminate H].
+  destruct (mapM (opnd_bits (e_q env)) qubits) as [bss|] eqn:Eb; [|discriminate H]. destruct (cparams args) as [vs|] eqn:Ev; [|discriminate H].
   match type of H with (if ?c then _ else _) = _ => destruct c eqn:C; [|discriminate H] end.
-  destruct (lower_app name vs bs inv) as [stmts|] eqn:Ea; [|discriminate H]. destruct (forallb (op_ok env) stmts); [|discriminate H].
-  injection H as <- <-.
-  apply andb_true_iff in C as [C Hd]. apply andb_true_iff in C as [C Hin]. apply andb_true_iff in C as [Hng Hp].
-  apply Z.ltb_lt in Hp. apply negb_true_iff in Hng. apply mapM_lit_bit in Eb as ->.
+  destruct (lower_app env name vs (List.concat bss) inv) as [[tgs sts]|] eqn:Ea; [|discriminate H].
+  destruct (forallb (op_ok env) (List.concat sts)); [|discriminate H]. injection H as <- <-.
+  apply andb_true_iff in C as [C Hd]. apply andb_true_iff in C as [Hng Hp].
+  apply Z.ltb_lt in Hp. apply negb_true_iff in Hng.
   cbn [visit_stmt visit_stmt_body]. eapply modified_gate_fix; eauto. now rewrite HG.
 Qed.
 
@@ -246,8 +288,9 @@ Lemma mod_ok_ops env G stm out evs : mod_ok env G stm = Some (out, evs) -> foral
 Proof.
   intros H. destruct stm; try discriminate H. cbn [mod_ok] in H.
   destruct (cmods mods 1 false) as [[p inv]|]; [|discriminate H].
-  destruct (mapM lit_bit qubits) as [bs|]; [|discriminate H]. destruct (cparams args) as [vs|]; [|discriminate H].
+  destruct (mapM (opnd_bits (e_q env)) qubits) as [bss|]; [|discriminate H]. destruct (cparams args) as [vs|]; [|discriminate H].
   match type of H with (if ?c then _ else _) = _ => destruct c; [|discriminate H] end.
-  destruct (lower_app name vs bs inv) as [stmts|]; [|discriminate H]. destruct (forallb (op_ok env) stmts) eqn:Eo; [|discriminate H].
+  destruct (lower_app env name vs (List.concat bss) inv) as [[tgs sts]|]; [|discriminate H].
+  destruct (forallb (op_ok env) (List.concat sts)) eqn:Eo; [|discriminate H].
   injection H as <- <-. now apply copies_forallb.
 Qed.
